@@ -14,7 +14,12 @@ worker() {
   for ((i=W; i<${#SEEDS[@]}; i+=N)); do
     S=${SEEDS[$i]}; P=${S%%_*}; d=seeded/$S
     for VS in 1 0; do
-      (cd $D/repo && git apply $D/verif/seeded/$S/patch.diff) || { echo "$S APPLY FAILED" > $ROWS/$S.row; continue 2; }
+      (cd $D/repo && git apply $D/verif/seeded/$S/patch.diff) || {
+        if grep -q status_on_current_tree $d/meta.json; then
+          SUM=$(python3 -c "import json;print(json.load(open('$d/meta.json')).get('summary','')[:200].replace('|','/').replace('\n',' '))")
+          echo "| $S | $SUM | - | patch no longer applies: superseded by a later repair (see meta.json) |  |" > $ROWS/$S.row
+        else echo "$S APPLY FAILED" > $ROWS/$S.row; fi
+        continue 2; }
       VERIF_SEED=$VS ./check $P quick > $ROWS/$S.$VS.out 2>&1; echo "rc=$?" > $ROWS/$S.$VS.rc
       (cd $D/repo && git checkout -q -- .)
     done
